@@ -711,3 +711,4 @@ m("x8-stepfn-mut-fresh-count", "C06", VM, _CSV_ORIG, _csm(last_left="&mut fresh"
 m("x8-stepfn-mut-stride-one", "C06", VM, _CSV_ORIG, _csm(stride="1"), "?")
 m("x8-stepfn-mut-no-gate", "C06", VM, _CSV_ORIG, _csm(gate=""), "?")
 m("x8-sweep-option-bitmap-none-dirty", "C05", BM, "            return inner.dirty_at(offset);\n        }\n        false", "            return inner.dirty_at(offset);\n        }\n        true", "R5.3.option_none_clean")
+m("x8-sweep-get-slice-args-swapped", "C01", VM, "        self.subslice(offset, count)", "        self.subslice(count, offset)", "R1.2.get_slice_forward")
